@@ -468,7 +468,7 @@ func (c *ctx) evalRange(cl *RangeClaim, pending *batch, rcfg, id string) {
 			// the hash evaluations of the REBUILT trie (which is not the true trie when the claim is
 			// altered): asked from the model round by round and evaluated with the real hash, so that
 			// the model's verdict comes from `fill`, not from a missing table entry
-			if c.f.Thorough() || honestKind(cl.Kind) || fnv32(sb.String())%4 == 0 {
+			if honestKind(cl.Kind) || fnv32(sb.String())%uint32(c.f.Scale(4, 2)) == 0 {
 				if extra, ok := c.neededFacts(sb.String()); ok {
 					sb.WriteString(extra)
 				}
